@@ -124,6 +124,7 @@ macro "ho_step" : tactic => `(tactic| first
   | ((with_reducible apply Ho.ite_bind) <;> intro _)
   | ((with_reducible apply Ho.getS_pin); intro _)
   | ho_bindleaf
+  | ((with_reducible apply Ho.unpin); ho_bindleaf)
   | ((with_reducible apply Ho.bind); (first | ho_leaf | ((with_reducible apply Ho.unpin); ho_leaf) | (with_reducible apply Ho.forEachI) | ((with_reducible apply Ho.unpin); (with_reducible apply Ho.forEachI))))
   | ((with_reducible apply Ho.ite) <;> intro _)
   | (with_reducible apply Ho.forEachI)
